@@ -45,9 +45,20 @@ func VerifC09() {
 	if custom {
 		ld, li, md, mi = verifStr("ld"), verifStr("li"), verifStr("md"), verifStr("mi")
 	}
+	// an encode option in the same call, in front of or behind WithDryRun: the dry run wins whatever the order
+	foreign := 0
+	if !custom {
+		foreign = int(verifChoose("encodeOption", 0, 2))
+	}
 	bopts := func(o ...Option) []Option {
 		if custom {
 			o = append(o, WithBranchFormatLastNode(ld, li), WithBranchFormatIntermedialNode(md, mi))
+		}
+		switch foreign {
+		case 1:
+			o = append([]Option{WithEncodeYAML()}, o...)
+		case 2:
+			o = append(o, WithEncodeJSON())
 		}
 		return o
 	}
